@@ -347,9 +347,10 @@ func (p *Prog) mapNonNil(fn *ssa.Function, cz *canonizer, m ssa.Value, at ssa.In
 }
 
 // gatedNonNil: phi M = φ(non-nil if C, nil otherwise). M is non-nil at `at` if a dominating guard is
-//   (a) len(M) > 0 / M != nil, (b) the gating condition C itself with the polarity of a non-nil edge,
-//   (c) x == "non-empty constant" when C is x != "" (and similar string implications),
-//   (d) N != nil for another phi N of the same block whose nil edges are a superset... (same gating).
+//
+//	(a) len(M) > 0 / M != nil, (b) the gating condition C itself with the polarity of a non-nil edge,
+//	(c) x == "non-empty constant" when C is x != "" (and similar string implications),
+//	(d) N != nil for another phi N of the same block whose nil edges are a superset... (same gating).
 func (p *Prog) gatedNonNil(fn *ssa.Function, cz *canonizer, m *ssa.Phi, okEdges []int, at ssa.Instruction) (bool, string) {
 	if ok, why := p.guardsImplyNonNil(fn, cz, m, okEdges, dominatingGuards(at.Block())); ok {
 		return true, why
